@@ -64,7 +64,7 @@ pub proof fn lemma_val_concat(s: Seq<Limb>, lo: Seq<Limb>, hi: Seq<Limb>, l: nat
         let h1 = (h - 1) as nat;
         lemma_val_concat(s, lo, hi, l, h1);
         lemma_bp_add(l, h1);
-        assert(s[l + h1] == hi[h1 as int]);
+        assert(s[(l + h1) as int] == hi[h1 as int]);
         let a = hi[h1 as int].0 as int;
         assert((l + h - 1) as nat == l + h1);
         assert(a * bp(l + h1) == a * bp(h1) * bp(l)) by (nonlinear_arith)
